@@ -95,7 +95,8 @@ class C17(Scenario):
             sched["clock_jumps"] = [[frng.randrange(0, 4 * dt + 1), frng.choice([1, -1]) * frng.choice([dt // 2, dt, 3 * dt])] for _ in range(frng.choice([1, 1, 2]))]
         # some runs use elements that compare equal although they are distinct objects
         groups = {str(i): 0 for i in range(n) if rng.random() < 0.6} if rng.random() < 0.4 else {}
-        return {"delay": delay, "producer": prod, "remover": rem, "closer": closer, "sched": sched, "late_get": rng.random() < 0.5, "groups": groups}
+        return {"delay": delay, "producer": prod, "remover": rem, "closer": closer, "sched": sched, "late_get": rng.random() < 0.5, "groups": groups,
+                "second_getter": closer is None and random.Random(f"{seed}:second").random() < 0.3}
 
     def shrink(self, case):
         for key in ("producer", "remover"):
@@ -211,6 +212,16 @@ class C17(Scenario):
             sim.wait_quiescent()
             state["drained_t"] = sim.now
             state["consumer_done_before_final_close"] = cons.state == "D"
+            second = None
+            if hist["close"] is None and case.get("second_getter"):
+                # a second consumer blocks on the (now empty) queue next to the first one: close() must release both
+                def getter2():
+                    r = callx('get', q.get)
+                    state["second_get"] = None if r is None else r[1]
+                    sim.rec("get2", state["second_get"], sim.now)
+
+                second = sim.spawn(getter2, "consumer2", "actor")
+                sim.wait_quiescent()
             if hist["close"] is None:
                 c = {"inv_seq": sim.next_seq(), "inv_t": sim.now, "final": True}
                 call('close', q.close)
@@ -223,6 +234,8 @@ class C17(Scenario):
                 r = call('get', q.get)
                 state["late_get"] = (None if r is None else r[1], sim.now - t0)
             sim.block(lambda: cons.state == "D", why="join-consumer")
+            if second is not None:
+                sim.block(lambda: second.state == "D", why="join-consumer2")
 
         def finish(sim, verdict):
             v = []
